@@ -273,8 +273,8 @@ def _old_requests_worker(a):
     left pending, the daemon idles 10.6 s, then stats are asked for.  Every line must be a valid message."""
     b, seed = a["build"], a["seed"]
     rng = random.Random(seed)
-    cfg = proto.Config([("login.svc", "login"), ("drone.svc", "dronecheck")], timeout=None)
-    s = proto.Session(b, cfg, leaks=False)
+    cfg = proto.Config([("login.svc", "login"), ("drone.svc", "dronecheck")], timeout=a.get("timeout"))
+    s = proto.Session(b, cfg, leaks=a.get("leaks", False))
     try:
         for k, cid in enumerate([5, 70000, 2147483647, 9][:a["n"]]):
             s.do({"t": "announce", "id": cid, "ip": rng.choice(["192.0.2.1", "2001:db8::1", "0::1"]), "port": 1000 + k})
@@ -285,11 +285,16 @@ def _old_requests_worker(a):
         s.do({"t": "stats"})
         time.sleep(11.2)
         out = s.do({"t": "stats"})
+        if a.get("then_withdraw"):
+            # the old requests are withdrawn one by one, with statistics in between: the counts follow, the exit is clean
+            for cid in list(s.open):
+                s.do({"t": rng.choice(["disconnect", "registered"]), "id": cid})
+                s.do({"t": "stats"})
         s.finish()
     except Exception:
         s.kill()
         raise
-    r = prun.post(s, b, cfg, PROPS, seed, do_shrink=False)
+    r = prun.post(s, b, cfg, a.get("props", PROPS), seed, do_shrink=False)
     r["stats"]["old_request_lines"] = sum(1 for l in (out or []) if " sec old, " in l)
     return r
 
